@@ -3,7 +3,15 @@ package c05
 import (
 	"testing"
 
+	"verifharness/evmgen"
 	"verifharness/stats"
 )
 
-func TestMain(m *testing.M) { stats.Main(m) }
+// Every fourth pre-state of this package is built on a pebble store (the node's production
+// backend) instead of the in-memory one: the lockup and ETX paths read their own uncommitted
+// writes through the block batch, and that view is implemented per backend.
+func TestMain(m *testing.M) {
+	evmgen.DiskEvery = 4
+	stats.AtExit(evmgen.CloseDiskKVs)
+	stats.Main(m)
+}
